@@ -1470,6 +1470,10 @@ var unaryGopNames = map[string]string{
 
 func loadFuncBody(ctx *blockCtx, fn *gogen.Func, body *ast.BlockStmt, sigBase *types.Signature, src ast.Node) {
 	cb := fn.BodyStart(ctx.pkg, body)
+	// the body may be loaded lazily in the middle of a statement of another function:
+	// keep that statement's pending line comment
+	comments, once := cb.BackupComments()
+	defer cb.SetComments(comments, once)
 	cb.SetComments(nil, false)
 	if sigBase != nil {
 		// this.Sprite.Main(...) or this.Game.MainEntry(...)
